@@ -51,8 +51,8 @@ fn cal_body(src: &mut Src, opts: &Opts) -> String {
     for _ in 0..n {
         let i = match src.below(6) {
             0 => Instruction::Declaration(Declaration { name: "tmp".into(), size: Vector { data_type: ScalarType::Bit, length: 1 }, sharing: None }),
-            1 => rf::pulse(src.chance(1, 2), &rfprog::nameable_frames()[src.below(5)], rf::waveform(*src.pick(&["wa", "wb", "custom4"]), &[])),
-            2 => Instruction::Call(Call::try_new(src.pick(&["fa", "fb"]).to_string(), vec![UnresolvedCallArgument::MemoryReference(rf::mref("ra", 0))]).unwrap()),
+            1 => rf::pulse(src.chance(1, 2), &rfprog::nameable_frames()[src.below(5)], rf::waveform(*src.pick(&["wa", "wb", "custom4", "fa"]), &[])),
+            2 => Instruction::Call(Call::try_new(src.pick(&["fa", "fb", "wb"]).to_string(), vec![UnresolvedCallArgument::MemoryReference(rf::mref("ra", 0))]).unwrap()),
             _ => rfprog::rf_instruction(src, opts),
         };
         lines.push(format!("    {}", i.to_quil_or_debug()));
@@ -72,7 +72,8 @@ pub fn generate(src: &mut Src, tier: Tier) -> Generated {
         }
     }
     // waveform definitions, some never invoked
-    for name in ["wa", "wb", "wc"] {
+    // ("fa" is also the name of an extern: the two name spaces are independent)
+    for name in ["wa", "wb", "wc", "fa"] {
         if src.chance(2, 3) {
             instrs.push(Instruction::WaveformDefinition(WaveformDefinition {
                 name: name.into(),
@@ -83,6 +84,10 @@ pub fn generate(src: &mut Src, tier: Tier) -> Generated {
     // extern pragmas: named (called or not), unnamed, non-identifier
     for _ in 0..src.below(4) {
         instrs.push(defs::definition(src, Kind::Extern).instr);
+    }
+    // an extern that shares its name with a waveform
+    if src.chance(1, 3) {
+        instrs.push(defs::parse1("PRAGMA EXTERN wb \"(x : REAL)\""));
     }
     // gate definitions and circuits (never touched by simplification)
     for _ in 0..src.below(3) {
@@ -105,9 +110,9 @@ pub fn generate(src: &mut Src, tier: Tier) -> Generated {
             1 => gate("X", 1),
             2 => gate("Y", 0),
             3 => gate("Z", 2),
-            4 => rf::pulse(true, &rfprog::nameable_frames()[src.below(5)], rf::waveform(*src.pick(&["wa", "wb", "wc", "undefined_wf"]), &[])),
+            4 => rf::pulse(true, &rfprog::nameable_frames()[src.below(5)], rf::waveform(*src.pick(&["wa", "wb", "wc", "undefined_wf", "fa"]), &[])),
             5 => Instruction::Call(
-                Call::try_new(src.pick(&["fa", "fb", "fz"]).to_string(), vec![UnresolvedCallArgument::MemoryReference(classical::mref(src, &rfprog::REGIONS, 1))]).unwrap(),
+                Call::try_new(src.pick(&["fa", "fb", "fz", "wb"]).to_string(), vec![UnresolvedCallArgument::MemoryReference(classical::mref(src, &rfprog::REGIONS, 1))]).unwrap(),
             ),
             _ => Instruction::Measurement(quil_rs::instruction::Measurement { name: None, qubit: Qubit::Fixed(0), target: Some(rf::mref("ro", 0)) }),
         };
@@ -285,7 +290,7 @@ impl Property for C35Prop {
         "C35"
     }
     fn rule(&self) -> &'static str {
-        "random programs: each of 4 frames on overlapping qubits defined with probability 0.6, body of <= 7/12 RF (incl. undefined frames), classical and control-flow instructions plus up to 4 extras (gates X/Y/Z, PULSE with defined/undefined waveform names, CALL of defined/undefined externs, MEASURE), waveform definitions wa/wb/wc + custom4, up to 3 PRAGMA EXTERN (named/unnamed/non-identifier), up to 2 DEFGATE/DEFCIRCUIT, up to 3 DEFCALs (X/Y on 0/1/variable, MEASURE) whose bodies hold RF instructions, DECLARE tmp (hoisted), PULSE with wa/wb, CALL. Non-trivial = for frames, waveforms or externs at least one definition is removed and one kept; distinct by program text hash."
+        "random programs: each of 4 frames on overlapping qubits defined with probability 0.6, body of <= 7/12 RF (incl. undefined frames), classical and control-flow instructions plus up to 4 extras (gates X/Y/Z, PULSE with defined/undefined waveform names, CALL of defined/undefined externs, MEASURE), waveform definitions wa/wb/wc + custom4 and one named like the extern fa, up to 3 PRAGMA EXTERN (named/unnamed/non-identifier) and one named like the waveform wb, up to 2 DEFGATE/DEFCIRCUIT, up to 3 DEFCALs (X/Y on 0/1/variable, MEASURE) whose bodies hold RF instructions, DECLARE tmp (hoisted), PULSE with wa/wb, CALL. Non-trivial = for frames, waveforms or externs at least one definition is removed and one kept; distinct by program text hash."
     }
     fn assumptions(&self) -> Vec<&'static str> {
         vec!["'frames used' follows the Quil-T rules of C26 (reference model), for a bare RESET the handler's own answer on the expanded program is the reference", "schedules compared bit-for-bit (same code on both sides)"]
